@@ -116,7 +116,7 @@ def oracle_formulas(c, r):
         cs = [al + sum(be[: j + 1]) for j in range(len(be))]
         cum[name] = cs
         tol = 1e-9 * (1 + abs(cs[-1]))
-        if al < -tol or any(v < -tol for v in cs):
+        if not al >= -tol or any(not v >= -tol for v in cs):
             return f"{name} penalty is negative: alpha={al}, cumulative={cs}"
         if any(y < x - tol for x, y in zip(cs, cs[1:])):
             return f"{name} penalty is not non-decreasing in the number of components: {cs}"
